@@ -75,6 +75,13 @@ def run(chk, prog):
                       [pe for pe in s['pl'].get('p', []) if pe['k'] == 'field'][-1:] and
                       [pe for pe in s['pl'].get('p', []) if pe['k'] == 'field'][-1].get('n') == f['n'] and
                       tyname([pe for pe in s['pl'].get('p', []) if pe['k'] == 'field'][-1].get('adt', '')) == 'Flow']
+            # ... or, as a whole: a `Flow { f: <from self.current_flow.f>, .. }` aggregate built on the way
+            for bb, si, s_ in cp.stmts():
+                if s_['k'] == 'assign' and s_['rv']['k'] == 'agg' and s_['rv'].get('ak') == 'adt' \
+                        and tyname(s_['rv'].get('adt', '')) == 'Flow' and f['n'] in (s_['rv'].get('fields') or []):
+                    o_ = s_['rv']['ops'][s_['rv']['fields'].index(f['n'])]
+                    if ('field:Flow::' + f['n']) in tr.prov(cp, o_):
+                        blocks.append(bb)
             every = bool(blocks) and gcp.path([0], lambda b: b in gcp.returns, avoid=blocks) is None
             chk.decide(R1, chk.key(R1, 'Flow', f['n']), f['n'] in fwr and every, 'copied into copy.current_flow on every path',
                        'copy_and_start_patching does not copy Flow::%s of the current flow into the look-ahead state'
